@@ -351,15 +351,15 @@ impl Interpreter {
                 state.stack.push_number(notted)?;
             }
             OpCodes::OP_ADD => {
-                let a = state.stack.pop_bigint()?;
                 let b = state.stack.pop_bigint()?;
+                let a = state.stack.pop_bigint()?;
 
-                let sum = a + b;
-                state.stack.push(sum.to_signed_bytes_le());
+                state.stack.push_bigint(a + b)?;
             }
             OpCodes::OP_SUB => {
-                let a = state.stack.pop_bigint()?;
+                // a b -> a - b
                 let b = state.stack.pop_bigint()?;
+                let a = state.stack.pop_bigint()?;
 
                 state.stack.push_bigint(a - b)?;
             }
@@ -370,14 +370,24 @@ impl Interpreter {
                 state.stack.push_bigint(a * b)?;
             }
             OpCodes::OP_DIV => {
-                let a = state.stack.pop_bigint()?;
+                // a b -> a / b, truncated towards zero
                 let b = state.stack.pop_bigint()?;
+                let a = state.stack.pop_bigint()?;
+
+                if b == BigInt::from(0) {
+                    return Err(InterpreterError::InvalidStackOperation("Division by zero"));
+                }
 
                 state.stack.push_bigint(a / b)?;
             }
             OpCodes::OP_MOD => {
-                let a = state.stack.pop_bigint()?;
+                // a b -> a % b, with the sign of a
                 let b = state.stack.pop_bigint()?;
+                let a = state.stack.pop_bigint()?;
+
+                if b == BigInt::from(0) {
+                    return Err(InterpreterError::InvalidStackOperation("Modulo by zero"));
+                }
 
                 state.stack.push_bigint(a % b)?;
             }
@@ -424,26 +434,26 @@ impl Interpreter {
                 state.stack.push_bool(a != b)?;
             }
             OpCodes::OP_LESSTHAN => {
-                let a = state.stack.pop_bigint()?;
                 let b = state.stack.pop_bigint()?;
+                let a = state.stack.pop_bigint()?;
 
                 state.stack.push_bool(a < b)?;
             }
             OpCodes::OP_LESSTHANOREQUAL => {
-                let a = state.stack.pop_bigint()?;
                 let b = state.stack.pop_bigint()?;
+                let a = state.stack.pop_bigint()?;
 
                 state.stack.push_bool(a <= b)?;
             }
             OpCodes::OP_GREATERTHAN => {
-                let a = state.stack.pop_bigint()?;
                 let b = state.stack.pop_bigint()?;
+                let a = state.stack.pop_bigint()?;
 
                 state.stack.push_bool(a > b)?;
             }
             OpCodes::OP_GREATERTHANOREQUAL => {
-                let a = state.stack.pop_bigint()?;
                 let b = state.stack.pop_bigint()?;
+                let a = state.stack.pop_bigint()?;
 
                 state.stack.push_bool(a >= b)?;
             }
